@@ -21,7 +21,7 @@ META = {
     "exhaustive": {"quick": True, "thorough": True},
     "space": {"quick": "all digraphs on <=3 vertices (self-loops included) + 5k random on 4 + random up to 7", "thorough": "all 65 536 digraphs on 4 vertices and all smaller ones; random digraphs and DAGs up to 7 vertices"},
     "assumptions": ["every vertex is a key of the graph dict (the documented input format)"],
-    "timeout": {"quick": 600, "thorough": 3600},
+    "timeout": {"quick": 420, "thorough": 3600},
 }
 
 
